@@ -1,6 +1,578 @@
-//! C01 -- (stub; see DESIGN.md section 5)
-use crate::util::Args;
+//! C01 -- group scoping on the real VM.
+//!
+//! Binding R: every edge of the TexGroups transition table (dumped by TLC) becomes a TeX program:
+//! shortest path to the source state, the edge's operation, then a probe suffix (read every
+//! quantity, close a group, read again, ...).  Expected read values are looked up in the table.
+//! Binding T: long random programs at depth up to 8+ with reads after every operation, recorded as
+//! a trace for TLC (Trace_TexGroups.tla).
+//!
+//! The abstract keys of the spec are bound to concrete *kinds* of TeX quantities here.  A kind only
+//! knows how to spell "assign abstract value x" and "read", and which text a read of abstract value
+//! x produces -- it is a rendering table, not semantics.
+use crate::lts::Lts;
+use crate::util::{quiet_panics, Args, Out, Rng};
+use crate::vmh;
+use serde_json::{json, Value};
 
-pub fn dispatch(_cmd: &str, _args: &Args) -> Option<i32> {
-    None
+pub fn dispatch(cmd: &str, args: &Args) -> Option<i32> {
+    Some(match cmd {
+        "c01-edges" => edges(args),
+        "c01-trace" => trace(args),
+        _ => return None,
+    })
+}
+
+#[derive(Clone, Copy, PartialEq, Eq, Debug)]
+pub enum K {
+    Count,
+    CountAdvance,
+    Dimen,
+    Skip,
+    Toks,
+    MacroCs,      // \def on a control sequence, initially undefined (map key)
+    MacroActive,  // \def on an active character, initially undefined (map key)
+    LetChar,      // \let\v=<char>, initially undefined (map key)
+    LetCmd,       // \let\v=\macro, initially undefined (map key)
+    MacroPre,     // \def on a control sequence that the setup defined
+    MacroActivePre,
+    LetCmdPre,
+    CountDef,
+    ToksDef,
+    CharDef,
+    CatCode,
+    MathCode,
+    EndLineChar,
+    Font,
+    GlobalDefs,
+}
+
+pub const MAP_KINDS: &[K] = &[K::MacroCs, K::MacroActive, K::LetChar, K::LetCmd];
+pub const VAR_KINDS: &[K] = &[
+    K::Count, K::CountAdvance, K::Dimen, K::Skip, K::Toks, K::MacroPre, K::MacroActivePre, K::LetCmdPre,
+    K::CountDef, K::ToksDef, K::CharDef, K::CatCode, K::MathCode, K::EndLineChar, K::Font,
+];
+
+/// A kind instantiated for a slot (1 or 2...) so that two keys of the same kind use different targets.
+#[derive(Clone, Copy, Debug)]
+pub struct Bind {
+    pub kind: K,
+    pub slot: usize,
+}
+
+const CS: [&str; 7] = ["", "va", "vb", "vc", "vd", "ve", "vf"];
+const ACT: [char; 7] = [' ', '~', '!', '?', '+', '<', '>'];
+const CC: [char; 7] = [' ', 'Q', 'R', 'S', 'T', 'U', 'V'];
+
+impl Bind {
+    pub fn is_map(&self) -> bool {
+        MAP_KINDS.contains(&self.kind)
+    }
+    /// Does texlang accept `\global` in front of this assignment?  (\chardef does not: scope filter.)
+    pub fn global_ok(&self) -> bool {
+        !matches!(self.kind, K::CharDef)
+    }
+    /// Depth-0 setup run before the program proper.
+    pub fn setup(&self) -> String {
+        let s = self.slot;
+        match self.kind {
+            K::MacroActive => format!("\\catcode`\\{}=13 ", ACT[s]),
+            K::MacroActivePre => format!("\\catcode`\\{}=13 \\def{}{{m0}}", ACT[s], ACT[s]),
+            K::MacroPre => format!("\\def\\{}{{m0}}", CS[s]),
+            K::LetCmd => "\\def\\one{o1}\\def\\two{o2}".to_string(),
+            K::LetCmdPre => format!("\\def\\zero{{o0}}\\def\\one{{o1}}\\def\\two{{o2}}\\let\\{}=\\zero ", CS[s]),
+            K::CountDef => format!("\\count1{s}0=1{s}0 \\count1{s}1=1{s}1 \\count1{s}2=1{s}2 \\countdef\\{}=1{s}0 ", CS[s]),
+            K::ToksDef => format!("\\toks1{s}0={{T0}}\\toks1{s}1={{T1}}\\toks1{s}2={{T2}}\\toksdef\\{}=1{s}0 ", CS[s]),
+            K::CharDef => format!("\\chardef\\{}=60 ", CS[s]),
+            K::Font => "\\font\\fa=fa \\font\\fb=fb ".to_string(),
+            K::MathCode => format!("\\mathcode`\\{}=4 ", CC[s]),
+            _ => String::new(),
+        }
+    }
+    /// Spell "assign abstract value x" (cur = current abstract value, for relative assignments).
+    /// `form`: "no" prefix, "global" = \global<assignment>, "gdef" = \gdef (macro kinds only).
+    pub fn assign(&self, x: usize, cur: usize, form: &str) -> Option<String> {
+        if form == "gdef" {
+            return match self.kind {
+                K::MacroCs | K::MacroPre => Some(format!("\\gdef\\{}{{m{x}}}", CS[self.slot])),
+                K::MacroActive | K::MacroActivePre => Some(format!("\\gdef{}{{m{x}}}", ACT[self.slot])),
+                _ => None,
+            };
+        }
+        if form == "global" && !self.global_ok() {
+            return None;
+        }
+        Some(self.assign_prefixed(x, cur, form == "global"))
+    }
+    fn assign_prefixed(&self, x: usize, cur: usize, global: bool) -> String {
+        let s = self.slot;
+        let g = if global { "\\global" } else { "" };
+        match self.kind {
+            K::Count => format!("{g}\\count{s}={} ", [0, 11, 22][x]),
+            K::CountAdvance => format!("{g}\\advance\\count{s} by {} ", [0i32, 11, 22][x] - [0i32, 11, 22][cur]),
+            K::Dimen => format!("{g}\\dimen{s}={}pt ", x),
+            K::Skip => {
+                if x == 0 {
+                    format!("{g}\\skip{s}=0pt ")
+                } else {
+                    format!("{g}\\skip{s}={x}pt plus {x}pt ")
+                }
+            }
+            K::Toks => {
+                if x == 0 {
+                    format!("{g}\\toks{s}={{}}")
+                } else {
+                    format!("{g}\\toks{s}={{t{x}}}")
+                }
+            }
+            K::MacroCs | K::MacroPre => format!("{g}\\def\\{}{{m{x}}}", CS[s]),
+            K::MacroActive | K::MacroActivePre => format!("{g}\\def{}{{m{x}}}", ACT[s]),
+            K::LetChar => format!("{g}\\let\\{}={} ", CS[s], ['?', 'a', 'b'][x]),
+            K::LetCmd | K::LetCmdPre => format!("{g}\\let\\{}=\\{} ", CS[s], ["zero", "one", "two"][x]),
+            K::CountDef => format!("{g}\\countdef\\{}=1{s}{x} ", CS[s]),
+            K::ToksDef => format!("{g}\\toksdef\\{}=1{s}{x} ", CS[s]),
+            K::CharDef => format!("{g}\\chardef\\{}=6{x} ", CS[s]),
+            K::CatCode => format!("{g}\\catcode`\\{}={} ", CC[s], [11, 12, 7][x]),
+            K::MathCode => format!("{g}\\mathcode`\\{}={} ", CC[s], [self.mathcode0(), 5, 6][x]),
+            K::EndLineChar => format!("{g}\\endlinechar={} ", [13, 42, 43][x]),
+            K::Font => format!("{g}\\{} ", ["nullfont", "fa", "fb"][x]),
+            K::GlobalDefs => format!("{g}\\globaldefs={} ", [0, 1, -1][x]),
+        }
+    }
+    fn mathcode0(&self) -> u32 {
+        4 // assigned by the setup at depth 0, so the table does not depend on a default
+    }
+    pub fn read(&self) -> String {
+        let s = self.slot;
+        match self.kind {
+            K::Count | K::CountAdvance => format!("\\the\\count{s}"),
+            K::Dimen => format!("\\the\\dimen{s}"),
+            K::Skip => format!("\\the\\skip{s}"),
+            K::Toks => format!("\\the\\toks{s}"),
+            K::MacroCs | K::MacroPre | K::LetChar | K::LetCmd | K::LetCmdPre => format!("\\{} ", CS[s]),
+            K::MacroActive | K::MacroActivePre => format!("{}", ACT[s]),
+            K::CountDef | K::ToksDef | K::CharDef => format!("\\the\\{} ", CS[s]),
+            K::CatCode => format!("\\the\\catcode`\\{} ", CC[s]),
+            K::MathCode => format!("\\the\\mathcode`\\{} ", CC[s]),
+            K::EndLineChar => "\\the\\endlinechar ".to_string(),
+            K::Font => "\\fontname\\font ".to_string(),
+            K::GlobalDefs => "\\the\\globaldefs ".to_string(),
+        }
+    }
+    /// The text a read produces when the quantity holds abstract value x.
+    pub fn render(&self, x: usize) -> String {
+        let s = self.slot;
+        match self.kind {
+            K::Count | K::CountAdvance => ["0", "11", "22"][x].to_string(),
+            K::Dimen => format!("{x}.0pt"),
+            K::Skip => {
+                if x == 0 {
+                    "0.0pt".to_string()
+                } else {
+                    format!("{x}.0pt plus {x}.0pt")
+                }
+            }
+            K::Toks => {
+                if x == 0 {
+                    String::new()
+                } else {
+                    format!("t{x}")
+                }
+            }
+            K::MacroCs => {
+                if x == 0 {
+                    format!("<UNDEF:{}>", CS[s])
+                } else {
+                    format!("m{x}")
+                }
+            }
+            K::MacroActive => {
+                if x == 0 {
+                    format!("<UNDEF:~{}>", ACT[s])
+                } else {
+                    format!("m{x}")
+                }
+            }
+            K::MacroPre | K::MacroActivePre => format!("m{x}"),
+            K::LetChar => {
+                if x == 0 {
+                    format!("<UNDEF:{}>", CS[s])
+                } else {
+                    ["", "a", "b"][x].to_string()
+                }
+            }
+            K::LetCmd => {
+                if x == 0 {
+                    format!("<UNDEF:{}>", CS[s])
+                } else {
+                    format!("o{x}")
+                }
+            }
+            K::LetCmdPre => format!("o{x}"),
+            K::CountDef => format!("1{s}{x}"),
+            K::ToksDef => format!("T{x}"),
+            K::CharDef => format!("6{x}"),
+            K::CatCode => ["11", "12", "7"][x].to_string(),
+            K::MathCode => [self.mathcode0(), 5, 6][x].to_string(),
+            K::EndLineChar => ["13", "42", "43"][x].to_string(),
+            K::Font => ["nullfont", "fa", "fb"][x].to_string(),
+            K::GlobalDefs => ["0", "1", "-1"][x].to_string(),
+        }
+    }
+    pub fn unrender(&self, text: &str) -> i64 {
+        for x in 0..3 {
+            if self.render(x) == text {
+                return x as i64;
+            }
+        }
+        -1
+    }
+}
+
+/// Split "a[b][c]d" into the bracketed pieces.
+fn brackets(s: &str) -> Vec<String> {
+    let mut out = vec![];
+    let mut cur: Option<String> = None;
+    for c in s.chars() {
+        match (c, &mut cur) {
+            ('[', None) => cur = Some(String::new()),
+            (']', Some(_)) => out.push(cur.take().unwrap()),
+            (_, Some(b)) => b.push(c),
+            _ => {}
+        }
+    }
+    out
+}
+
+fn reads(binds: &[Bind]) -> String {
+    let mut s = String::new();
+    for b in binds {
+        s.push('[');
+        s.push_str(&b.read());
+        s.push(']');
+    }
+    s
+}
+
+struct Program {
+    src: String,
+    expect: Vec<String>,
+}
+
+/// Build the program for a path of op indices through the LTS from its initial state.
+fn build_program(lts: &Lts, binds: &[Bind], path_ops: &[usize]) -> Option<Program> {
+    let mut src = String::new();
+    let mut done: Vec<String> = vec![];
+    for b in binds {
+        let s = b.setup();
+        if !done.contains(&s) {
+            src.push_str(&s);
+            done.push(s);
+        }
+    }
+    let mut st = lts.init;
+    for oi in path_ops {
+        let o = &lts.ops[*oi];
+        let (t, _) = lts.edges[st][*oi].as_ref()?;
+        match o["k"].as_str().unwrap() {
+            "begin" => src.push('{'),
+            "end" => src.push('}'),
+            "assign" => {
+                let key = o["key"].as_u64().unwrap() as usize;
+                let x = o["v"].as_u64().unwrap() as usize;
+                let g = o["g"].as_str().unwrap();
+                let b = &binds[key - 1];
+                let cur = lts.states[st]["val"][key - 1].as_u64().unwrap() as usize;
+                src.push_str(&b.assign(x, cur, g)?);
+            }
+            _ => return None,
+        }
+        st = *t as usize;
+    }
+    // probe suffix
+    let mut expect = vec![];
+    let state = &lts.states[st];
+    src.push_str(&reads(binds));
+    for (i, b) in binds.iter().enumerate() {
+        expect.push(b.render(state["val"][i].as_u64().unwrap() as usize));
+    }
+    let snaps = state["snaps"].as_array().unwrap();
+    for snap in snaps.iter().rev() {
+        src.push('}');
+        src.push_str(&reads(binds));
+        for (i, b) in binds.iter().enumerate() {
+            expect.push(b.render(snap[i].as_u64().unwrap() as usize));
+        }
+    }
+    Some(Program { src, expect })
+}
+
+fn run_program(src: &str) -> (Vec<String>, String) {
+    let mut vm = vmh::new_vm(&[], &[]);
+    let r = vmh::run_src::<vmh::H>(&mut vm, "main.tex", src, 200_000);
+    let text = vmh::render(&r.toks);
+    let outcome = match r.outcome {
+        vmh::Outcome::Ok => "ok".to_string(),
+        vmh::Outcome::Err { title, .. } => format!("error: {title}"),
+        vmh::Outcome::Panic { site, msg } => format!("panic at {site}: {msg}"),
+        vmh::Outcome::Budget => "budget".to_string(),
+    };
+    (brackets(&text), outcome)
+}
+
+fn binding_list(all: bool) -> Vec<(K, K)> {
+    let mut v = vec![];
+    for a in MAP_KINDS {
+        for b in VAR_KINDS {
+            v.push((*a, *b));
+        }
+    }
+    let _ = all;
+    v
+}
+
+pub fn edges(args: &Args) -> i32 {
+    quiet_panics();
+    let lts = Lts::load(args.req("lts"));
+    // table of the same spec with the recorded deviations enabled (same op labels): used only to
+    // classify a mismatch as "explained by a known finding" -- never to accept silently.
+    let dev: Option<Lts> = args.str("devlts").map(Lts::load);
+    let seed: u64 = args.num("seed", 1);
+    let per_edge: usize = args.num("per_edge", 3);
+    // BFS tree: shortest op path to every state
+    let n = lts.states.len();
+    let mut parent: Vec<Option<(usize, usize)>> = vec![None; n];
+    let mut seen = vec![false; n];
+    let mut order = vec![lts.init];
+    seen[lts.init] = true;
+    let mut qi = 0;
+    while qi < order.len() {
+        let s = order[qi];
+        qi += 1;
+        for oi in 0..lts.ops.len() {
+            if let Some((t, _)) = &lts.edges[s][oi] {
+                let t = *t as usize;
+                if !seen[t] {
+                    seen[t] = true;
+                    parent[t] = Some((s, oi));
+                    order.push(t);
+                }
+            }
+        }
+    }
+    let path_to = |s: usize| -> Vec<usize> {
+        let mut p = vec![];
+        let mut cur = s;
+        while let Some((ps, oi)) = parent[cur] {
+            p.push(oi);
+            cur = ps;
+        }
+        p.reverse();
+        p
+    };
+    // list of edges (excluding checkpoint and failing end which are not C01 operations)
+    let mut edge_list: Vec<(usize, usize)> = vec![];
+    for s in 0..n {
+        for oi in 0..lts.ops.len() {
+            if let Some((_, res)) = &lts.edges[s][oi] {
+                let k = lts.ops[oi]["k"].as_str().unwrap();
+                if k == "checkpoint" || (k == "end" && res == &json!(false)) {
+                    continue;
+                }
+                edge_list.push((s, oi));
+            }
+        }
+    }
+    let bindings = binding_list(true);
+    let nb = bindings.len();
+    let per_edge = if per_edge == 0 { nb } else { per_edge.min(nb) };
+    let nthreads = std::thread::available_parallelism().map(|n| n.get()).unwrap_or(4);
+    let next = std::sync::atomic::AtomicUsize::new(0);
+    struct Acc {
+        programs: u64,
+        skipped: u64,
+        violations: Vec<Value>,
+        samples: Vec<Value>,
+        kinds_used: std::collections::BTreeMap<String, u64>,
+    }
+    let acc = std::sync::Mutex::new(Acc { programs: 0, skipped: 0, violations: vec![], samples: vec![], kinds_used: Default::default() });
+    std::thread::scope(|sc| {
+        for _ in 0..nthreads {
+            sc.spawn(|| {
+                let mut programs = 0u64;
+                let mut skipped = 0u64;
+                let mut viol: Vec<Value> = vec![];
+                let mut samples: Vec<Value> = vec![];
+                let mut kinds_used: std::collections::BTreeMap<String, u64> = Default::default();
+                loop {
+                    let i = next.fetch_add(1, std::sync::atomic::Ordering::SeqCst);
+                    if i >= edge_list.len() {
+                        break;
+                    }
+                    let (s, oi) = edge_list[i];
+                    let mut ops = path_to(s);
+                    ops.push(oi);
+                    for j in 0..per_edge {
+                        let bi = (i.wrapping_mul(7919) + j * (nb / per_edge).max(1) + seed as usize) % nb;
+                        let (ka, kb) = bindings[bi];
+                        let binds = [Bind { kind: ka, slot: 1 }, Bind { kind: kb, slot: 2 }, Bind { kind: K::GlobalDefs, slot: 3 }];
+                        let prog = match build_program(&lts, &binds, &ops) {
+                            Some(p) => p,
+                            None => {
+                                skipped += 1;
+                                continue;
+                            }
+                        };
+                        programs += 1;
+                        *kinds_used.entry(format!("{ka:?}+{kb:?}")).or_insert(0) += 1;
+                        let (got, outcome) = run_program(&prog.src);
+                        if got != prog.expect || outcome != "ok" {
+                            // would the deviant table have predicted this output?
+                            let mut explained = false;
+                            if let (Some(d), true) = (&dev, outcome == "ok") {
+                                let dops: Option<Vec<usize>> = ops.iter().map(|oi| {
+                                    let mut o = lts.ops[*oi].clone();
+                                    o.as_object_mut().unwrap().remove("res");
+                                    d.op_index.get(&serde_json::to_string(&o).unwrap()).copied()
+                                }).collect();
+                                if let Some(dops) = dops {
+                                    if let Some(dp) = build_program(d, &binds, &dops) {
+                                        explained = dp.src == prog.src && dp.expect == got;
+                                    }
+                                }
+                            }
+                            if viol.len() < 400 {
+                                viol.push(json!({"kind":"violation","part":"edges","program":prog.src,
+                                    "explained_by_deviations": explained,
+                                    "expected":prog.expect,"got":got,"outcome":outcome,
+                                    "kinds":[format!("{ka:?}"),format!("{kb:?}"),"GlobalDefs"],"path_len":ops.len()}));
+                            }
+                        } else if samples.len() < 2 && ops.len() >= 5 {
+                            samples.push(json!({"program":prog.src,"reads":got}));
+                        }
+                    }
+                }
+                let mut a = acc.lock().unwrap();
+                a.programs += programs;
+                a.skipped += skipped;
+                a.violations.extend(viol);
+                if a.samples.len() < 4 {
+                    a.samples.extend(samples);
+                }
+                for (k, v) in kinds_used {
+                    *a.kinds_used.entry(k).or_insert(0) += v;
+                }
+            });
+        }
+    });
+    let a = acc.into_inner().unwrap();
+    let mut out = Out::new(args.str("out"));
+    let mut v = a.violations;
+    v.sort_by_key(|x| x["path_len"].as_u64().unwrap_or(0));
+    for x in v.iter().take(args.num("maxviol", 40)) {
+        out.line(x);
+    }
+    out.line(&json!({"kind":"summary","part":"edges","edges":edge_list.len(),"programs":a.programs,
+        "skipped_unexpressible":a.skipped,"bindings":nb,"per_edge":per_edge,"lts_states":n,
+        "samples":a.samples,"kind_pairs_used":a.kinds_used.len()}));
+    0
+}
+
+// ------------------------------------------------------------------------------------------
+// binding T: deep random programs, reads after every operation
+// ------------------------------------------------------------------------------------------
+
+pub fn trace(args: &Args) -> i32 {
+    quiet_panics();
+    let seed: u64 = args.num("seed", 1);
+    let n: usize = args.num("n", 50);
+    let len: usize = args.num("len", 60);
+    let mut out = Out::new(args.str("out"));
+    let mut rng = Rng::new(seed);
+    for t in 0..n {
+        // keys 1,2 map kinds; 3,4,5 var kinds; 6 = \globaldefs
+        let mut binds: Vec<Bind> = vec![];
+        let mut used: Vec<K> = vec![];
+        let mut pick = |pool: &[K], rng: &mut Rng, used: &mut Vec<K>| loop {
+            let k = *rng.pick(pool);
+            // singletons must not be bound twice; macro kinds on the same cs name neither
+            let clash = used.contains(&k)
+                || (matches!(k, K::Count | K::CountAdvance) && used.iter().any(|u| matches!(u, K::Count | K::CountAdvance)));
+            if !clash {
+                used.push(k);
+                return k;
+            }
+        };
+        for slot in 1..=2 {
+            let k = pick(MAP_KINDS, &mut rng, &mut used);
+            binds.push(Bind { kind: k, slot });
+        }
+        // LetCmd and LetCmdPre share \one/\two; MacroCs/MacroCsG share nothing across slots
+        for slot in 3..=5 {
+            let k = pick(VAR_KINDS, &mut rng, &mut used);
+            binds.push(Bind { kind: k, slot });
+        }
+        binds.push(Bind { kind: K::GlobalDefs, slot: 6 });
+        let kinds: Vec<String> = binds.iter().map(|b| format!("{:?}", b.kind)).collect();
+        // generate ops
+        let mut src = String::new();
+        let mut done: Vec<String> = vec![];
+        for b in &binds {
+            let s = b.setup();
+            if !done.contains(&s) {
+                src.push_str(&s);
+                done.push(s);
+            }
+        }
+        let mut ops: Vec<Value> = vec![];
+        let mut depth = 0usize;
+        // track current abstract values only to spell relative assignments (\advance); the harness
+        // does not predict reads.
+        let open_bias = 2 + rng.below(5);
+        let mut cur_for_advance: Option<usize> = None; // unknown after a group closes
+        let _ = &mut cur_for_advance;
+        for _ in 0..len {
+            let r = rng.below(20);
+            if r < open_bias && depth < 10 {
+                src.push('{');
+                depth += 1;
+                ops.push(json!({"ev":"begin"}));
+            } else if r < open_bias + 3 && depth > 0 {
+                src.push('}');
+                depth -= 1;
+                ops.push(json!({"ev":"end"}));
+            } else {
+                let ki = rng.below(binds.len() as u64) as usize;
+                let b = binds[ki];
+                if b.kind == K::CountAdvance {
+                    // relative assignment needs the current value: spell it as a reset-free pair
+                    // (\count=K then \advance) is not one assignment; skip this kind in traces.
+                    continue;
+                }
+                let mut x = rng.below(3) as usize;
+                if b.is_map() && x == 0 {
+                    x = 1 + rng.below(2) as usize;
+                }
+                let form = *rng.pick(&["no", "no", "no", "global", "global", "gdef"]);
+                let Some(text) = b.assign(x, 0, form) else { continue };
+                src.push_str(&text);
+                ops.push(json!({"ev":"assign","key":ki + 1,"v":x,"g":form}));
+            }
+            src.push_str(&reads(&binds));
+        }
+        let (got, outcome) = run_program(&src);
+        out.line(&json!({"ev":"reset","kinds":kinds,"program":src,"trace":t}));
+        let nb = binds.len();
+        if outcome != "ok" {
+            out.line(&json!({"ev":"abnormal","outcome":outcome}));
+            continue;
+        }
+        for (i, mut op) in ops.into_iter().enumerate() {
+            let chunk: Vec<i64> = (0..nb)
+                .map(|j| got.get(i * nb + j).map(|s| binds[j].unrender(s)).unwrap_or(-2))
+                .collect();
+            op["obs"] = json!(chunk);
+            out.line(&op);
+        }
+    }
+    0
 }
